@@ -230,7 +230,8 @@ def handle (fn : String) (a : Json) : Option (Except String Json) :=
       pure (Json.mkObj [
         ("stale", optJ stale), ("unclean", optJ unclean), ("foreign", optJ foreign), ("unsound", optJ unsound),
         ("quiescent", Json.bool (quiescentB w)), ("complete", Json.bool (completeB sp orc w)),
-        ("once", Json.bool (onceB w)),
+        ("once", Json.bool (onceB w)), ("singleAct", Json.bool (singleActB sp orc)),
+        ("singleActWide", Json.bool (singleActWideB sp orc)),
         ("final", Mistral.Drv.Engine.obs w), ("sem", semJson sp orc)])
   | "sem.explore" => some do
       let sp ← Mistral.Drv.Engine.specOfJson (← a.getObjVal? "spec")
@@ -241,12 +242,12 @@ def handle (fn : String) (a : Json) : Option (Except String Json) :=
       let stale := (a.getObjValAs? Bool "stale").toOption.getD true
       let clean := (a.getObjValAs? Bool "clean").toOption.getD false
       let once := (a.getObjValAs? Bool "once").toOption.getD false
-      let invs := checks sp orc ++ (if once then [("once", onceB)] else [])
+      let invs := checks sp orc ++ (if once && singleActB sp orc then [("once", onceB)] else [])
       let (nodes, r) := explore sp orc stale clean maxPauses maxStates invs
       pure (Json.mkObj [
         ("states", Json.num r.states), ("quiescent", Json.num r.quiescent), ("truncated", Json.bool r.truncated),
         ("staleSkipped", Json.num r.staleSkipped), ("uncleanSkipped", Json.num r.uncleanSkipped),
-        ("sem", semJson sp orc),
+        ("sem", semJson sp orc), ("singleAct", Json.bool (singleActB sp orc)),
         ("violations", Json.arr (r.viol.map fun (nm, i) =>
           Json.mkObj [("inv", Json.str nm),
                       ("events", Json.arr ((pathTo nodes i).map eventJson).toArray),
@@ -264,7 +265,7 @@ def handle (fn : String) (a : Json) : Option (Except String Json) :=
       let stale := (a.getObjValAs? Bool "stale").toOption.getD true
       let clean := (a.getObjValAs? Bool "clean").toOption.getD false
       let once := (a.getObjValAs? Bool "once").toOption.getD false
-      let invs := checks sp orc ++ (if once then [("once", onceB)] else [])
+      let invs := checks sp orc ++ (if once && singleActB sp orc then [("once", onceB)] else [])
       let (visited, quiescent, viol) := walks sp orc stale clean maxPauses nWalks maxLen seed invs
       pure (Json.mkObj [
         ("states", Json.num visited), ("quiescent", Json.num quiescent), ("truncated", Json.bool false),
